@@ -87,8 +87,8 @@ CLAIMS["C03"] = {
             "UTF-8 validity, v2, auto), for every accessor on every accepted header, for every iterator state; iteration yields at most n/3+1 items with strict "
             "cursor progress. The driver runs the panic-aware layer, so the harness (catch_unwind per call) compares panic behaviour. Correspondence on all v1/v2/TLV "
             "generators incl. multi-byte characters adjacent to CR, plus an in-process sweep over all token strings up to 5/6 tokens. PARTIAL: that the Rust loops "
-            "terminate is observed (step cap), not proved; the overflow-checks=off configuration is covered by the theorem that no checked subtraction underflows, "
-            "and the harness is built with overflow checks on.",
+            "terminate is observed (step cap), not proved. Both configurations: the theorem shows no checked subtraction underflows, and every operation is "
+            "evaluated through two builds of the harness (overflow-checks on and off) whose outputs must be identical.",
     "note": BASE_NOTE, "ref": "DESIGN.md 7 (C03), 11",
 }
 CLAIMS["C04"] = {
